@@ -1400,6 +1400,7 @@ package sarama
 //@   callsite pkg.decode: effect b.recordsChecked == 1
 //@   callsite pkg.decode: requires[records_payload] $buf == recBuffer
 //@   ensures[records_fully_consumed] err == nil && !b.PartialTrailingRecord ==> b.recordsChecked == 1
+//@   ensures[progress] err == nil ==> pd.remaining() <= old(pd.remaining()) - 8
 //@   decoder_frame
 
 // ---------------------------------------------------------------------------------------------
@@ -1989,4 +1990,50 @@ package sarama
 //@   requires pd.remaining() >= 0
 //@   ensures[state] 0 <= pd.remaining() && pd.remaining() <= old(pd.remaining())
 //@   ensures[progress] err == nil ==> pd.remaining() <= old(pd.remaining()) - 8
+//@   decoder_frame
+
+//@ func (r *Records) setTypeFromMagic(pd) props C10
+//@   returns err
+//@   requires pd.remaining() >= 0
+//@   ensures[state] pd.remaining() == old(pd.remaining())
+//@   ensures[by_magic] err == nil ==> r.recordsType == ite(peek8(pd, pd.remaining(), magicOffset) < 2, legacyRecords, defaultRecords)
+//@   ensures[kept_on_error] err != nil ==> r.recordsType == old(r.recordsType)
+//@   decoder_frame
+
+// Records.decode: a successful decode that is neither partial nor overflow consumed something.
+//@ func (r *Records) decode(pd) props C10
+//@   returns err
+//@   requires pd.remaining() >= 0
+//@   requires r.recordsType == unknownRecords
+//@   ensures[state] 0 <= pd.remaining() && pd.remaining() <= old(pd.remaining())
+//@   ensures[typed] err == nil ==> (r.recordsType == legacyRecords && r.MsgSet != nil) || (r.recordsType == defaultRecords && r.RecordBatch != nil)
+//@   ensures[progress] err == nil && old(pd.remaining()) > 0 && !(r.recordsType == legacyRecords && (r.MsgSet.PartialTrailingMessage || r.MsgSet.OverflowMessage)) ==> pd.remaining() < old(pd.remaining())
+//@   decoder_frame
+
+// the flag getters of a typed Records value read the flags of the decoded set / batch and change nothing
+//@ func (r *Records) isPartial() props C10
+//@   returns p, err
+//@   requires r.recordsType == legacyRecords || r.recordsType == defaultRecords
+//@   ensures[reads_flag] err == nil && (r.recordsType == legacyRecords && r.MsgSet != nil ==> p == r.MsgSet.PartialTrailingMessage) && (r.recordsType == defaultRecords && r.RecordBatch != nil ==> p == r.RecordBatch.PartialTrailingRecord)
+//@   modifies nothing
+//@ func (r *Records) isOverflow() props C10
+//@   returns o, err
+//@   requires r.recordsType == legacyRecords || r.recordsType == defaultRecords
+//@   ensures[reads_flag] err == nil && (r.recordsType == legacyRecords && r.MsgSet != nil ==> o == r.MsgSet.OverflowMessage) && (r.recordsType == defaultRecords ==> !o)
+//@   modifies nothing
+//@ func (r *Records) numRecords() props C10
+//@   returns n, err
+//@   requires r.recordsType == legacyRecords || r.recordsType == defaultRecords
+//@   ensures n >= 0
+//@   modifies nothing
+
+// FetchResponseBlock.decode: the record loop terminates: every iteration that continues has consumed bytes of the
+// records sub-decoder.
+//@ func (b *FetchResponseBlock) decode(pd, version) props C10
+//@   returns err
+//@   requires pd.remaining() >= 0
+//@   ensures[state] 0 <= pd.remaining() && pd.remaining() <= old(pd.remaining())
+//@   loop 0: invariant 0 <= pd.remaining() && pd.remaining() <= old(pd.remaining()) && 0 <= i && (numTransact >= 0 ==> len(b.AbortedTransactions) == numTransact)
+//@   loop 1: invariant 0 <= pd.remaining() && pd.remaining() <= old(pd.remaining()) && recordsDecoder.remaining() >= 0
+//@   loop 1: decreases recordsDecoder.remaining()
 //@   decoder_frame
